@@ -348,7 +348,7 @@ pub fn main(tier: Tier, replay: Option<String>) -> i32 {
     let baseline: Vec<(Vec<String>, Vec<String>)> = (0..system_rows().len()).map(|i| word_fields(&base, WordId::new(0, i as u32)).expect("baseline")).collect();
     let env = Arc::new(Env { dir, matrix, system, baseline });
     let mut jobs: Vec<Box<dyn AnyJob>> = Vec::new();
-    let max_k = tier.pick(3, 4);
+    let max_k = tier.pick(4, 5);
     jobs.push(job(LayerSpace { env: env.clone(), max_k, routes: vec![false, true] }, Strategy::Bfs, Some(tier.pick(50, 3000)), json!({"max_user_dictionaries": max_k, "pos_patterns": 4, "plugin_pos": [0, 1, 2], "routes": ["bare", "loaded"]})));
     // tall stacks
     let mut tall: Vec<Layers> = Vec::new();
